@@ -56,5 +56,22 @@ CLAIMED['C05'] = {
     'note': 'json replaced by a token-preserving stub in the symbolic run (real json in the per-path pristine run); -M file writing outside.',
 }
 
+CLAIMED['C03'] = {
+    'engines': 'ZX',
+    'technique': 'symbolic execution of output_algorithm / build_struct / algorithm_lookup / output() on an arbitrary table row with symbolic notes and on symbolic unknown and gss-* names; three views compared against the row by z3',
+    'text': 'For an ARBITRARY row of the documented shape (absent/empty/1-2 notes per level with symbolic texts, eight version forms) z3 shows text notes == JSON notes == '
+            'lookup notes == row content, table unchanged, independent of padding/batch/verbose/prior status; symbolic unknown names are flagged in text and JSON and never '
+            'rendered good; gss-<base>-<token> uses the wildcard row in text and JSON; a known name keeps its notes at every position among symbolic neighbours in both roles.',
+    'note': 'Note texts are 1 symbolic char, names <=3 symbolic chars (props/c03.py META); json.dumps captured, its text rendering trusted; rows of the real table have the quantified shape by C17.',
+}
+CLAIMED['C01'] = {
+    'engines': 'ZX',
+    'technique': 'symbolic execution of SSH2_Kex.parse on an independently encoded KEXINIT and of the real output()/build_struct on peers with symbolic names; all 2^64 SSH-1 mask pairs through the decoder',
+    'text': 'For all name-lists within the bounds z3 shows: wire -> ten lists field by field; text report and JSON document list per category exactly the advertised '
+            'non-empty names in order (unknown symbolic names, table names, duplicates, empty lists), compression and banner as sent, role key; SSH-1 masks decode to '
+            'exactly the set bits and are shown in text and JSON.',
+    'note': 'Bounded list/name lengths (props/c01.py META); client-to-server lists are not reported by the tool (documented source is server-to-client); json.dumps captured.',
+}
+
 NOT_APPLICABLE = {
 }
